@@ -224,6 +224,8 @@ pub struct Cfg {
     pub keepalive: u16,
     pub will: bool,
     pub auth: bool,
+    /// with `auth`: the password is the empty byte string (user name + zero-length password is legal)
+    pub empty_password: bool,
     pub expiry: u32,
     pub downgrade: bool,
     /// maximum number of API calls (connect included)
@@ -318,6 +320,7 @@ impl Cfg {
             keepalive: 0,
             will: false,
             auth: false,
+            empty_password: false,
             expiry: 3600,
             downgrade: false,
             max_ops: 4,
